@@ -426,6 +426,21 @@ def o4_o5_cases(state):
     v1, v2 = VectorSymbol("v"), VectorSymbol("v")
     if v1 == v2:
         bad.append("two VectorSymbols with equal display names alias")
+    # a quantity built FROM another quantity is a new object; the source keeps its value, dimension and display name
+    qL = Quantity(5 * units.meter, display_symbol="L")
+    qW = Quantity(qL)
+    qN = Quantity(qL, display_symbol="W")
+    xs = sp.Symbol("xs")
+    if qW is qL or qW == qL or qN == qL or (qL + qW).subs(qL, xs) != xs + qW or sp.diff(qL * qW, qL) != qW:
+        bad.append(f"Quantity(existing quantity) aliases its source: L + Quantity(L) = {qL + qW}, after subs {(qL + qW).subs(qL, xs)}")
+    if qL.display_name != "L" or S.print_expression(qL) != "L" or qW.scale_factor != qL.scale_factor or qW.dimension != qL.dimension:
+        bad.append(f"wrapping a quantity changed the source or lost its value: source now prints {S.print_expression(qL)!r} (display name {qL.display_name!r})")
+    # human-readable printing of quantities under every combination of given names: never the generated internal name
+    for kw in ({}, {"display_symbol": "R_0"}, {"display_latex": "R_{0}"}, {"display_symbol": "R_0", "display_latex": "R_{0}"}):
+        qq = Quantity(7 * units.meter, **kw)
+        for txt in (str(qq), S.print_expression(qq), S.print_expression(2 * qq + a), code_str(qq * a)):
+            if re.search(r"(SYM|FUN|QTY)\d", txt):
+                bad.append(f"quantity created with {kw}: generated internal name shown in {txt!r}")
     c1 = clone_as_symbol(a, subscript="1")
     c2 = clone_as_function(a, [b], subscript="2", display_latex="X")
     for obj, want_code, want_latex in ((a, "x", "x"), (c1, "x_1", "x_{1}"), ):
